@@ -28,6 +28,9 @@ where
         iter += 1;
         if x_curr != 0 as f64 {
             approx_err = ((x_curr - xr_old).abs() / x_curr) * 100.0;
+        } else {
+            // No relative change can be computed at 0: a stale value must not end the iteration
+            approx_err = f64::INFINITY;
         }
         // The relative change is undefined at (and never small near) a root at the origin:
         // an iterate on which the function vanishes is a root whatever the last step was
